@@ -47,6 +47,8 @@ pub enum Op {
     Quotient,
     Restart { disk_seed: u64 },
     Fork,
+    /// stress only: create `nodes` nodes labelled `label` and unify them into one long chain
+    Bulk { nodes: usize, label: L, descending: bool },
 }
 
 #[derive(Clone, Debug, Serialize, Deserialize)]
@@ -494,6 +496,29 @@ impl<'a> Machine<'a> {
                     (a, _) => return self.v("with_edges:acceptance", i, op, format!("returned {} for a label vector of {} length", if a.is_some() { "Some" } else { "None" }, if wrong_len { "the wrong" } else { "the right" })),
                 }
             }
+            Op::Bulk { nodes, label, descending } => {
+                let base = n;
+                self.ex.lib(&format!("{}:bulk-build", id), || {
+                    for _ in 0..*nodes {
+                        self.real.new_node(*label);
+                        self.bare.new_node(*label);
+                    }
+                    let mut pairs: Vec<(usize, usize)> = (1..*nodes).map(|k| (base + k, base + k - 1)).collect();
+                    if *descending {
+                        pairs.reverse();
+                    }
+                    for (a, b) in pairs {
+                        self.real.unify(NodeId(a), NodeId(b));
+                        self.bare.unify(NodeId(a), NodeId(b));
+                    }
+                })?;
+                self.m.nodes.extend(std::iter::repeat(*label).take(*nodes));
+                let mut pairs: Vec<(usize, usize)> = (1..*nodes).map(|k| (base + k, base + k - 1)).collect();
+                if *descending {
+                    pairs.reverse();
+                }
+                self.m.q.extend(pairs);
+            }
             Op::Quotient => self.quotient(i, op)?,
             Op::Restart { disk_seed } => self.restart(i, op, *disk_seed)?,
             Op::Fork => {
@@ -550,17 +575,13 @@ impl<'a> Machine<'a> {
                     if hit.iter().any(|h| !*h) {
                         return self.v("quotient:map-not-surjective", i, op, format!("({}) returned map {:?} into {} misses a new node", name, qt, k));
                     }
-                    for a in 0..n {
-                        for b in 0..n {
-                            if (qt[a] == qt[b]) != (rep[a] == rep[b]) {
-                                return self.v(
-                                    if rep[a] == rep[b] { "quotient:unified-nodes-not-merged" } else { "quotient:merged-nodes-that-were-not-unified" },
-                                    i,
-                                    op,
-                                    format!("({}) nodes {} and {}: unified = {}, but q = {:?}", name, a, b, rep[a] == rep[b], qt),
-                                );
-                            }
-                        }
+                    if let Err((a, b, together_in_q)) = crate::plain::same_partition(qt, &rep) {
+                        return self.v(
+                            if together_in_q { "quotient:merged-nodes-that-were-not-unified" } else { "quotient:unified-nodes-not-merged" },
+                            i,
+                            op,
+                            format!("({}) nodes {} and {}: unified = {}, but q = {:?}", name, a, b, rep[a] == rep[b], qt),
+                        );
                     }
                 }
                 if q.table.0 != qb.table.0 {
@@ -929,7 +950,7 @@ fn apply_model(m: &mut Model, op: &Op) {
                 m.q.clear();
             }
         }
-        Op::Restart { .. } | Op::Fork => {}
+        Op::Restart { .. } | Op::Fork | Op::Bulk { .. } => {}
     }
 }
 
@@ -1012,6 +1033,13 @@ impl Check for C09 {
     }
     fn shrink(c: &Case) -> Vec<Case> {
         shrink_history(c)
+    }
+    fn stress(tier: Tier) -> Vec<Case> {
+        let n = if tier == Tier::Thorough { 600_000 } else { 200_000 };
+        vec![
+            Case { ops: vec![Op::NewNode(0), Op::Bulk { nodes: n, label: 0, descending: false }, Op::SetSources(vec![0, 1]), Op::Quotient] },
+            Case { ops: vec![Op::Bulk { nodes: n, label: 1, descending: true }, Op::SetTargets(vec![5, 0]), Op::Quotient, Op::Quotient] },
+        ]
     }
     fn rule() -> &'static str {
         "Each run is one generated operation history (2/3 of them <= 10 steps, the rest up to 30/40) on a real lax::OpenHypergraph and, in lock step, a bare lax::Hypergraph, over a label alphabet of 1-3 node labels: new node/edge/operation, add source/target, unify (2/3 same-label partner, self pairs, repeats, chains; 1/3 arbitrary partner = possible conflict), interface assignment, deletions, relabelling, quotient (weight 6 of 29), restart through the simulated disk, fork. After a quotient that the model predicts to fail, 2/3 of the histories continue with a repair (relabel all / relabel the offender / delete the offender) and quotient again. Oracle after every step: all public fields equal the list model; on Ok(q): q total, surjective, fibres exactly the union-find classes of the pending pairs, diagram = model mapped through q (numbering adopted, never predicted), pending list empty, second quotient is the identity and changes nothing; Err iff a class holds two labels, and then the diagram equals the pre-call clone field for field. Non-trivial iff the history has a mutating step; distinct = distinct history fingerprints; states = distinct model-state hashes observed after steps."
